@@ -25,9 +25,13 @@ DEV_CLASSES = {
     "6": "additionalProperties exclusion regexp built from property names skips the empty name / is ^()$ without names (decode.go excludeFields; empty_name_refuted)",
     "7": "matchIf / list.MatchN called with an error value (`false` as if/then/else/contains) fails for every instance",
     "8": "duplicate property names",
+    "11": "an error value (`false`, or a subschema no type can satisfy) as a member of a matchN list: correct on its own, but next to a second validator the evaluator rejects list/struct instances (evaluator interaction, observed; schemas of this class are compared but a disagreement is reported as this finding)",
     "10": "type list containing both \"integer\" and \"number\": the int constraint added for \"integer\" stays, non-integers are rejected (constraints_generic.go constraintType; integer_and_number_refuted)",
     "9": "oneOf whose members have no constraints and disjoint type masks is encoded by the union of the masks; a member `false` counts as its full mask, so oneOf:[false] accepts instances (constraints_combinator.go constraintOneOf; oneOf_false_member_refuted)",
 }
+
+# deviation classes whose CUE meaning depends on evaluator interactions that Schema/Encode.v does not model
+UNMODELLED = {"7", "11"}
 
 SCALAR_KEYS = {"type", "enum", "const", "multipleOf", "exclusiveMaximum", "exclusiveMinimum", "maximum", "minimum",
                "maxLength", "minLength", "pattern", "maxProperties", "minProperties", "maxItems", "minItems",
@@ -154,6 +158,10 @@ def run(ctx):
                 st["forward_verdicts"] += 1
                 if a == "1":
                     st["forward_valid"] += 1
+                if a != b and (set(dev.split(",")) & UNMODELLED):
+                    st["unmodelled_evaluator_interaction_verdicts"] += 1
+                    devhit = True
+                    continue
                 if a != b:
                     if b != cc or dev != "-":
                         what = "verdict differs from Schema/Encode.v (the faithful model of the importer) on instance %d; spec verdict %s" % (k, cc)
